@@ -894,6 +894,8 @@ enum It {
     Star(usize),
     L,
     R,
+    Param,                 // the parameter `T` inside a macro definition
+    M(usize, Box<It>),     // use of the macro `nts[i]` with a terminal or nonterminal argument
 }
 
 #[derive(Clone, Debug)]
@@ -905,11 +907,14 @@ struct A2 {
 #[derive(Clone, Debug)]
 struct N2 {
     inline: bool,
+    is_macro: bool,
     alts: Vec<A2>,
 }
 
 fn gen_look_grammar(r: &mut Rng, h: &mut Hist) -> Vec<N2> {
     let k = 3 + r.below(4);
+    // user macros `M<T>` live behind the ordinary nonterminals (indices k..)
+    let n_macros = if r.chance(2, 3) { 1 + r.below(2) } else { 0 };
     let mut nts: Vec<N2> = vec![];
     for i in 0..k {
         let inline = i > 0 && r.chance(1, 2);
@@ -939,8 +944,13 @@ fn gen_look_grammar(r: &mut Rng, h: &mut Hist) -> Vec<N2> {
                         return t;
                     }
                 };
-                let roll = if i == 0 && e < 2 { 3 } else { r.below(12) };
+                let roll = if i == 0 && e < 2 { 3 } else if i == 0 && e == 2 && n_macros > 0 { 12 } else { r.below(14) };
                 match roll {
+                    12 | 13 if n_macros > 0 => {
+                        let arg = if i + 1 < k && r.chance(1, 2) { It::N(i + 1 + r.below(k - i - 1)) } else { It::T(term(r)) };
+                        items.push(It::M(k + r.below(n_macros), Box::new(arg)));
+                        h.hit("look:macro-use");
+                    }
                     0..=1 => items.push(It::T(term(r))),
                     2..=5 if i + 1 < k => items.push(It::N(i + 1 + r.below(k - i - 1))),
                     6 | 7 => {
@@ -989,7 +999,44 @@ fn gen_look_grammar(r: &mut Rng, h: &mut Hist) -> Vec<N2> {
             _ => alts.push(normal(r, &mut markers, h)),
         }
         let alts = alts.into_iter().enumerate().map(|(ai, items)| A2 { items, label: format!("N{i}_{ai}") }).collect();
-        nts.push(N2 { inline, alts });
+        nts.push(N2 { inline, is_macro: false, alts });
+    }
+    // macro definitions: `@L`/`@R` around the parameter, `@R` followed by further symbols,
+    // `@L` preceded by symbols
+    for m in 0..n_macros {
+        let looks = |r: &mut Rng, items: &mut Vec<It>| {
+            for _ in 0..(1 + r.below(2)) {
+                items.push(if r.chance(1, 2) { It::L } else { It::R });
+            }
+        };
+        let n_alts = 1 + r.below(2);
+        let mut markers: Vec<usize> = (0..TERMS.len()).collect();
+        let mut alts = vec![];
+        for ai in 0..n_alts {
+            let mut items = vec![];
+            if n_alts > 1 || r.chance(1, 2) {
+                if r.chance(1, 3) {
+                    looks(r, &mut items);
+                }
+                items.push(It::T(markers.remove(r.below(markers.len()))));
+            }
+            if r.chance(3, 4) {
+                looks(r, &mut items);
+            }
+            items.push(It::Param);
+            if r.chance(4, 5) {
+                looks(r, &mut items);
+            }
+            if r.chance(3, 4) {
+                items.push(It::T(r.below(TERMS.len())));
+                if r.chance(1, 2) {
+                    looks(r, &mut items);
+                }
+            }
+            h.hit("look:macro-alternative");
+            alts.push(A2 { items, label: format!("M{m}_{ai}") });
+        }
+        nts.push(N2 { inline: false, is_macro: true, alts });
     }
     nts
 }
@@ -1006,6 +1053,14 @@ fn look_size(nts: &[N2]) -> u64 {
                 let f = match it {
                     It::N(j) if nts[*j].inline => count[*j].max(1),
                     It::Opt(_) | It::Star(_) => 2,
+                    // every use instantiates the macro: count its productions with the host
+                    It::M(m, arg) => {
+                        let a = match **arg {
+                            It::N(j) if nts[j].inline => count[j].max(1),
+                            _ => 1,
+                        };
+                        1 + count[*m].saturating_mul(a) / 4
+                    }
                     _ => 1,
                 };
                 p = p.saturating_mul(f);
@@ -1017,31 +1072,45 @@ fn look_size(nts: &[N2]) -> u64 {
     (0..k).filter(|&i| !nts[i].inline).map(|i| count[i]).fold(0u64, |a, b| a.saturating_add(b))
 }
 
+fn render_item(it: &It) -> String {
+    match it {
+        It::T(t) => format!("\"{}\"", TERMS[*t]),
+        It::N(j) => format!("N{j}"),
+        It::Opt(t) => format!("\"{}\"?", TERMS[*t]),
+        It::Star(t) => format!("\"{}\"*", TERMS[*t]),
+        It::L => "@L".to_string(),
+        It::R => "@R".to_string(),
+        It::Param => "T".to_string(),
+        It::M(m, arg) => format!("M{m}<{}>", render_item(arg)),
+    }
+}
+
 fn render_look(nts: &[N2], ascent: bool) -> String {
     let mut s = String::from("use crate::R;\n");
     if ascent {
         s.push_str("#[recursive_ascent]\n");
     }
     s.push_str("grammar;\n");
+    let k = nts.iter().filter(|n| !n.is_macro).count();
     for (i, n) in nts.iter().enumerate() {
         if n.inline {
             s.push_str("#[inline]\n");
         }
-        write!(s, "{}N{i}: String = {{\n", if i == 0 { "pub " } else { "" }).unwrap();
+        if n.is_macro {
+            write!(s, "M{}<T>: String = {{\n", i - k).unwrap();
+        } else {
+            write!(s, "{}N{i}: String = {{\n", if i == 0 { "pub " } else { "" }).unwrap();
+        }
         for a in &n.alts {
             let mut parts = vec![];
             let mut args = vec![];
-            for (k, it) in a.items.iter().enumerate() {
+            for (x, it) in a.items.iter().enumerate() {
                 let sym = match it {
-                    It::T(t) => format!("\"{}\"", TERMS[*t]),
-                    It::N(j) => format!("N{j}"),
-                    It::Opt(t) => format!("\"{}\"?", TERMS[*t]),
-                    It::Star(t) => format!("\"{}\"*", TERMS[*t]),
-                    It::L => "@L".to_string(),
-                    It::R => "@R".to_string(),
+                    It::M(m, arg) => format!("M{}<{}>", m - k, render_item(arg)),
+                    other => render_item(other),
                 };
-                parts.push(format!("<x{k}:{sym}>"));
-                args.push(format!("x{k}.r()"));
+                parts.push(format!("<x{x}:{sym}>"));
+                args.push(format!("x{x}.r()"));
             }
             let fmt = vec!["{}"; args.len()].join(" ");
             let sep = if args.is_empty() { "" } else { " " };
@@ -1064,37 +1133,47 @@ enum LT {
     R,
 }
 
-fn derive_look(nts: &[N2], r: &mut Rng, i: usize, toks: &mut Vec<String>) -> LT {
+fn derive_item(nts: &[N2], r: &mut Rng, it: &It, param: Option<&It>, toks: &mut Vec<String>) -> LT {
+    match it {
+        It::T(t) => {
+            toks.push(TERMS[*t].to_string());
+            LT::T(TERMS[*t].to_string(), toks.len() - 1)
+        }
+        It::N(j) => derive_look(nts, r, *j, None, toks),
+        It::Opt(t) => {
+            let name = format!("\"{}\"?", TERMS[*t]);
+            if r.chance(1, 2) {
+                toks.push(TERMS[*t].to_string());
+                LT::O(name, vec![LT::T(TERMS[*t].to_string(), toks.len() - 1)])
+            } else {
+                LT::O(name, vec![])
+            }
+        }
+        It::Star(t) => {
+            let mut v = vec![];
+            for _ in 0..r.below(4) {
+                toks.push(TERMS[*t].to_string());
+                v.push(LT::T(TERMS[*t].to_string(), toks.len() - 1));
+            }
+            LT::S(format!("\"{}\"*", TERMS[*t]), v)
+        }
+        It::L => LT::L,
+        It::R => LT::R,
+        // the parameter stands for the argument of this instance (a terminal or a nonterminal)
+        It::Param => match param {
+            Some(a) => derive_item(nts, r, a, None, toks),
+            None => LT::L,
+        },
+        It::M(m, arg) => derive_look(nts, r, *m, Some(arg), toks),
+    }
+}
+
+fn derive_look(nts: &[N2], r: &mut Rng, i: usize, param: Option<&It>, toks: &mut Vec<String>) -> LT {
     let n = &nts[i];
     let a = r.pick(&n.alts);
     let mut kids = vec![];
     for it in &a.items {
-        kids.push(match it {
-            It::T(t) => {
-                toks.push(TERMS[*t].to_string());
-                LT::T(TERMS[*t].to_string(), toks.len() - 1)
-            }
-            It::N(j) => derive_look(nts, r, *j, toks),
-            It::Opt(t) => {
-                let name = format!("\"{}\"?", TERMS[*t]);
-                if r.chance(1, 2) {
-                    toks.push(TERMS[*t].to_string());
-                    LT::O(name, vec![LT::T(TERMS[*t].to_string(), toks.len() - 1)])
-                } else {
-                    LT::O(name, vec![])
-                }
-            }
-            It::Star(t) => {
-                let mut v = vec![];
-                for _ in 0..r.below(4) {
-                    toks.push(TERMS[*t].to_string());
-                    v.push(LT::T(TERMS[*t].to_string(), toks.len() - 1));
-                }
-                LT::S(format!("\"{}\"*", TERMS[*t]), v)
-            }
-            It::L => LT::L,
-            It::R => LT::R,
-        });
+        kids.push(derive_item(nts, r, it, param, toks));
     }
     LT::U(if n.inline { Some(format!("N{i}")) } else { None }, a.label.clone(), kids)
 }
@@ -1617,7 +1696,15 @@ fn main() {
             tries += 1;
             let nts = if tries == 1 {
                 // fixed witness: `@L` directly followed by `@R` between two tokens
-                vec![N2 { inline: false, alts: vec![A2 { items: vec![It::T(2), It::L, It::R, It::T(3)], label: "W".into() }] }]
+                vec![N2 { inline: false, is_macro: false, alts: vec![A2 { items: vec![It::T(2), It::L, It::R, It::T(3)], label: "W".into() }] }]
+            } else if tries == 2 {
+                // fixed witness: `@L`/`@R` inside a macro definition, `@R` followed by a further symbol,
+                // instantiated with a terminal and with a nonterminal
+                vec![
+                    N2 { inline: false, is_macro: false, alts: vec![A2 { items: vec![It::M(2, Box::new(It::T(0))), It::M(2, Box::new(It::N(1)))], label: "W2".into() }] },
+                    N2 { inline: false, is_macro: false, alts: vec![A2 { items: vec![It::T(4), It::R], label: "W2b".into() }] },
+                    N2 { inline: false, is_macro: true, alts: vec![A2 { items: vec![It::L, It::Param, It::R, It::T(3)], label: "M0_0".into() }] },
+                ]
             } else {
                 gen_look_grammar(&mut r, &mut h)
             };
@@ -1678,7 +1765,7 @@ fn main() {
                 let mut seen = BTreeSet::new();
                 for _ in 0..60 {
                     let mut toks = vec![];
-                    let tree = derive_look(&nts, &mut r, 0, &mut toks);
+                    let tree = derive_look(&nts, &mut r, 0, None, &mut toks);
                     // layout: leading gap 0-3, gaps 1-3 between tokens, trailing gap 0-2
                     let mut text = " ".repeat(r.below(4));
                     let mut spans = vec![];
